@@ -22,13 +22,14 @@ a pipeline observes variables another one assigns, and a command that may
 throw is not followed by one that stops reading early) — the generator only
 emits such pipelines (notes/C15.md, "determinism of pipelines").
 
-`Cfg.staleElem` selects how `set`/`tmp` treat an lvalue with indices when the
-variable changes between the evaluation of the lvalue and the assignment:
-`false` is the reference reading (the element is replaced in the value the
-variable holds at that moment — language.md "set": "creates a new list or map
-with the mutation applied, and assigns it to the variable"), `true` is what
-pkg/eval does (the container read when the lvalue was evaluated is used), see
-notes/C15.md.
+`Cfg.staleElem` exists only to state what pkg/eval did BEFORE commit 798ebe2
+("fix: eval: element assignment uses the variable's current value"): with
+`true` an lvalue with indices keeps the container it read when the lvalue was
+evaluated.  The reference (and the driver, and pkg/eval since that commit) is
+`false`: the element is replaced in the value the variable holds at the
+moment of the assignment (language.md "set": "creates a new list or map with
+the mutation applied, and assigns it to the variable").  See
+`C15_unfixed_stale_element_container` and the first two corpus programs.
 -/
 import ElvModel.C15.Values
 namespace C15
@@ -136,7 +137,7 @@ def rethrow {α} : Except Exc α → M α := liftE
 
 structure Cfg where
   /-- `true`: an lvalue with indices keeps the container it read when it was
-  evaluated (behaviour of pkg/eval); `false`: reference reading. -/
+  evaluated (behaviour of pkg/eval before commit 798ebe2); `false`: the reference. -/
   staleElem : Bool := false
 
 /-! ### Variables and scopes (language.md "Variable", "Scoping rule") -/
